@@ -152,3 +152,44 @@ package check
 //@   property C19
 //@   option nosafety
 //@   option safety slice,index
+
+// ------------------------------------------------------------------ C01 / C08 / C19: the cycle-detection state of the weighted-graph engine
+// ResolveEdge hands the visited set on exactly along edges that are part of a tuple cycle or recursive (elsewhere the
+// sub-problem starts without one), and dispatches every edge type to its resolver with this request and this edge /
+// this edge's target node
+//@ func (*Resolver).ResolveEdge(r, ctx, req, edge, visited) (res, err)
+//@   property C01 C08 C19
+//@   option nosafety
+//@   option defer_neutral
+//@   monitor dispatch
+//@     before call (*check.Resolver).specificType args _, _, rq, e : assert rq == req && e == edge
+//@     before call (*check.Resolver).specificTypeWildcard args _, _, rq, e : assert rq == req && e == edge
+//@     before call (*check.Resolver).specificTypeAndRelation args _, _, rq, e, v : assert rq == req && e == edge && v == ((edge.IsPartOfTupleCycle() || edge.GetRecursiveRelation() != "") ? visited : nil)
+//@     before call (*check.Resolver).ttu args _, _, rq, e, v : assert rq == req && e == edge && v == ((edge.IsPartOfTupleCycle() || edge.GetRecursiveRelation() != "") ? visited : nil)
+//@     before call (*check.Resolver).ResolveUnion args _, _, rq, n, v : assert rq == req && n == edge.GetTo() && v == ((edge.IsPartOfTupleCycle() || edge.GetRecursiveRelation() != "") ? visited : nil)
+//@     before call (*check.Resolver).ResolveRewrite args _, _, rq, n, v : assert rq == req && n == edge.GetTo() && v == ((edge.IsPartOfTupleCycle() || edge.GetRecursiveRelation() != "") ? visited : nil)
+
+// ResolveUnion starts a visited set — seeded with the object#relation under evaluation — exactly when none was handed in
+// and the node is a relation node that is recursive or part of a tuple cycle; a set handed in is passed on unchanged
+//@ func (*Resolver).ResolveUnion(r, ctx, req, node, visited) (res, err)
+//@   property C01 C08 C19
+//@   option nosafety
+//@   option defer_neutral
+//@   option stable node
+//@   option stable req
+//@   monitor cycleState
+//@     ghost seeded = false
+//@     ghost seedMap ref = nil
+//@     after call (*sync.Map).Store args m, k, v : seeded = pre(typeIs(k, "string") && as(k, "string") == tuple.ToObjectRelationString(req.GetTupleKey().GetObject(), req.GetTupleKey().GetRelation())) ; seedMap = m
+//@     before call (*check.Resolver).ResolveRecursive args _, _, rq, e, v : assert rq == req && (visited != nil ==> v == visited) && (visited == nil && old(node.GetNodeType() == graph.SpecificTypeAndRelation && (node.GetRecursiveRelation() == node.GetUniqueLabel() || node.IsPartOfTupleCycle())) ==> v != nil && seeded && v == seedMap) && (visited == nil && !(old(node.GetNodeType() == graph.SpecificTypeAndRelation && (node.GetRecursiveRelation() == node.GetUniqueLabel() || node.IsPartOfTupleCycle()))) ==> v == nil)
+//@     before call (*check.Resolver).ResolveUnionEdges args _, _, rq, es, v : assert rq == req && (visited != nil ==> v == visited) && (visited == nil && old(node.GetNodeType() == graph.SpecificTypeAndRelation && (node.GetRecursiveRelation() == node.GetUniqueLabel() || node.IsPartOfTupleCycle())) ==> v != nil && seeded && v == seedMap) && (visited == nil && !(old(node.GetNodeType() == graph.SpecificTypeAndRelation && (node.GetRecursiveRelation() == node.GetUniqueLabel() || node.IsPartOfTupleCycle()))) ==> v == nil)
+
+// ResolveRewrite dispatches on the node: relation and union nodes keep the visited set, intersection and exclusion are
+// evaluated without one, and an exclusion is never evaluated for a typed-wildcard request
+//@ func (*Resolver).ResolveRewrite(r, ctx, req, node, visited) (res, err)
+//@   property C01 C08 C19
+//@   option nosafety
+//@   monitor dispatch
+//@     before call (*check.Resolver).ResolveUnion args _, _, rq, n, v : assert rq == req && n == node && v == visited
+//@     before call (*check.Resolver).ResolveIntersection args _, _, rq, n : assert rq == req && n == node
+//@     before call (*check.Resolver).ResolveExclusion args _, _, rq, n : assert rq == req && n == node && !req.IsTypedWildcard()
